@@ -177,8 +177,10 @@ func runMigration(c *core.Ctx) {
 	var news, prevs []string
 	for _, mig := range cs.Migs {
 		args := mig.Common().Args
-		pp, _ := sx.ConstString(args[0])
-		pn, _ := sx.ConstString(args[1])
+		pp, okP := sx.ConstString(args[0])
+		pn, okN := sx.ConstString(args[1])
+		c.Check(okP && okN, "RegisterTypeMigration in "+load.FnName(mig.Parent())+": previous name", mig.Pos(), "written down as constants",
+			"the previous package path / type name of a migration is computed at run time instead of being written down: computed from the present type (reflect.TypeOf(x).String(), also through a type alias) it is the PRESENT name, so the type is registered as renamed from a name it never had and errors under the real old name are no longer recognised")
 		prevs = append(prevs, pp+"/"+pn)
 		ts, ok := ConcreteTypes(p, args[2])
 		if !ok || len(ts) != 1 {
@@ -351,6 +353,27 @@ func runReportShape(c *core.Ctx) {
 				switch {
 				case s == "%s:%d: " && len(order) == 0:
 					order = append(order, "source")
+					// the location printed is GetOneLineSource of the reported error itself (the innermost stack of its
+					// single chain of causes), under that call's ok result
+					okSrc := false
+					if len(call.Call.Args) >= 3 {
+						vs := varargs(call.Call.Args[2])
+						if len(vs) == 2 {
+							e0, is0 := stripIface(vs[0]).(*ssa.Extract)
+							e1, is1 := stripIface(vs[1]).(*ssa.Extract)
+							if is0 && is1 && e0.Tuple == e1.Tuple && e0.Index == 0 && e1.Index == 1 {
+								if src, isCall := e0.Tuple.(*ssa.Call); isCall && sx.Callee(src) != nil && sx.Callee(src).Name() == "GetOneLineSource" && len(src.Call.Args) == 1 && src.Call.Args[0] == ssa.Value(fn.Params[0]) {
+									for _, l := range dominatingLits(call.Block()) {
+										if ex, isEx := l.V.(*ssa.Extract); isEx && ex.Tuple == e0.Tuple && ex.Index == 3 && !l.Neg {
+											okSrc = true
+										}
+									}
+								}
+							}
+						}
+					}
+					c.Check(okSrc, "report.BuildSentryReport: source prefix", call.Pos(), "file and line of withstack.GetOneLineSource(err), when it reports ok",
+						"the file:line prefix of the message is not taken from GetOneLineSource of the reported error: for multi-cause trees (whose members carry stacks but whose single chain does not) a location appears that is not the innermost recorded source of the error")
 				case strings.Contains(s, "report composition"):
 					order = append(order, "composition")
 				}
@@ -542,8 +565,37 @@ func runGrpcFlow(c *core.Ctx) {
 		}
 		// st.Err() where st is phi(FromError's status, WithDetails' status)
 		call, ok := r.Results[1].(*ssa.Call)
-		okErr := ok && sx.Callee(call) != nil && sx.Callee(call).Name() == "Err"
-		c.Check(okErr, "server: returned error", r.Pos(), "the status' Err()", "the returned error is not the Err() of the status built for the handler's error")
+		okErr := ok && sx.Callee(call) != nil && sx.Callee(call).Name() == "Err" && len(call.Call.Args) == 1
+		if okErr {
+			// the status is the one FromError found in the handler's error, or the one WithDetails built for it
+			var okStatus func(v ssa.Value, d int) bool
+			okStatus = func(v ssa.Value, d int) bool {
+				if d > 4 {
+					return false
+				}
+				switch x := v.(type) {
+				case *ssa.Phi:
+					for _, e := range x.Edges {
+						if !okStatus(e, d+1) {
+							return false
+						}
+					}
+					return true
+				case *ssa.Extract:
+					src, isCall := x.Tuple.(*ssa.Call)
+					if !isCall || x.Index != 0 {
+						return false
+					}
+					if src == fromErr {
+						return true
+					}
+					return sx.Callee(src) != nil && sx.Callee(src).Name() == "WithDetails"
+				}
+				return false
+			}
+			okErr = okStatus(call.Call.Args[0], 0)
+		}
+		c.Check(okErr, "server: returned error", r.Pos(), "the Err() of the status found in, or built for, the handler's error", "the returned error is not the Err() of the status built for the handler's error (another status - e.g. one derived from the context - is returned on some path): text, identity, annotations and code of the handler's error are lost")
 	}
 	// ---- client
 	var icall *ssa.Call
